@@ -339,7 +339,27 @@ def rule_labellist(ctx):
         yield o
 
 
+def rule_shiftshared(ctx):
+    """Shared obligations that a common time shift / a reordering relies on: onset and offset *distances* are rounded,
+    never the absolute times (C04.ROUNDING); tempo hits are per reference tempo, the minimum taken over the estimates
+    (C04.TEMPOFORM); chord.evaluate scores the reference on its own span - only the estimate is padded or cropped to
+    it, nothing is anchored at an absolute time (C12.PIPELINE)."""
+    from . import c04, c12
+
+    for o in c04.rule_rounding(ctx):
+        o.rule = "C08.SHIFTSHARED"
+        yield o
+    for o in c04.rule_tempoform(ctx):
+        o.rule = "C08.SHIFTSHARED"
+        yield o
+    for o in c12.rule_pipeline(ctx):
+        if o.construct in ("chord.evaluate:reference-not-adjusted", "chord.evaluate:adjust-estimate"):
+            o.rule = "C08.SHIFTSHARED"
+            yield o
+
+
 RULES = [
+    ("C08.SHIFTSHARED", 10, rule_shiftshared),
     ("C08.LABELCANON", 1, rule_labelcanon),
     ("C08.LABELLIST", 7, rule_labellist),
     ("C08.AFFINE", 30, rule_affine),
